@@ -507,6 +507,9 @@ pub enum VOp {
     // refused requests (C13)
     BadUpdate(usize),
     BadCheckedPush(usize),
+    /// plain import of the open vector's name with another version / as another format
+    BadImportVersion,
+    BadImportFormat,
 }
 
 impl VOp {
@@ -529,6 +532,8 @@ impl VOp {
             VOp::RollbackBefore(_) => "rollback_before",
             VOp::BadUpdate(_) => "bad_update",
             VOp::BadCheckedPush(_) => "bad_checked_push",
+            VOp::BadImportVersion => "bad_import_version",
+            VOp::BadImportFormat => "bad_import_format",
         }
     }
 
@@ -572,6 +577,8 @@ impl VOp {
             "rollback_before" => VOp::RollbackBefore(n()?),
             "bad_update" => VOp::BadUpdate(n()? as usize),
             "bad_checked_push" => VOp::BadCheckedPush(n()? as usize),
+            "bad_import_version" => VOp::BadImportVersion,
+            "bad_import_format" => VOp::BadImportFormat,
             _ => return None,
         })
     }
@@ -731,6 +738,8 @@ impl<T: Elem> VModel<T> {
                 VOutcome::Err("IndexTooHigh")
             }
             VOp::BadCheckedPush(_) => VOutcome::Err("UnexpectedIndex"),
+            VOp::BadImportVersion => VOutcome::Err("DifferentVersion"),
+            VOp::BadImportFormat => VOutcome::Err("DifferentFormat"),
             VOp::Delete(i) => {
                 if *i < self.cur.items.len() {
                     self.cur.items[*i] = None;
@@ -940,6 +949,18 @@ impl<V: VecLike> VecExec<V> {
                     v.v_checked_push(*i, val)?;
                     VOutcome::Ok
                 }
+                VOp::BadImportVersion => {
+                    let _other = V::v_import(&db, &name, version + Version::new(1), keep)?;
+                    VOutcome::Ok
+                }
+                VOp::BadImportFormat => {
+                    if V::FORMAT.contains("LZ4") {
+                        let _o = <BytesVec<usize, u8> as ImportableVec>::import_with(opts(&db, &name, version, keep))?;
+                    } else {
+                        let _o = <LZ4Vec<usize, u8> as ImportableVec>::import_with(opts(&db, &name, version, keep))?;
+                    }
+                    VOutcome::Ok
+                }
                 VOp::Delete(i) => {
                     v.v_delete(*i);
                     VOutcome::Ok
@@ -972,10 +993,12 @@ impl<V: VecLike> VecExec<V> {
             self.v().v_stored_len(),
             self.v().v_real_stored_len(),
             self.v().v_len(),
-            !self.v().v_holes().is_empty(),
+            self.holes_region_exists(),
         );
         let mut m2 = self.model.clone();
         let expected = m2.apply(op);
+        let refusal = matches!(expected, VOutcome::Err(_));
+        let snap_before = if refusal { Some(self.full_snapshot()) } else { None };
         let got = match self.run_impl(op, &before) {
             Ok(g) => g,
             Err(p) => {
@@ -989,6 +1012,8 @@ impl<V: VecLike> VecExec<V> {
             (a, b) if a == b => true,
             // any error class is accepted where the model expects a refusal without naming it
             (VOutcome::Err("no-change-record"), VOutcome::Err(_)) => true,
+            // a foreign format carries another layer version: either mismatch may be named
+            (VOutcome::Err("DifferentFormat"), VOutcome::Err("DifferentVersion")) => true,
             // rollback_before with nothing to undo and no change directory may report the IO error
             (VOutcome::OkStamp(s), VOutcome::Err("IO")) if matches!(op, VOp::RollbackBefore(_)) && *s == before.cur.stamp && before.undo_depth() == 0 && before.files.is_empty() => {
                 m2 = before.clone();
@@ -1003,6 +1028,23 @@ impl<V: VecLike> VecExec<V> {
             });
         }
         self.model = m2;
+        if let Some(b) = snap_before {
+            self.stats.bump(&format!("refused:{}", op.kind()));
+            let a = self.full_snapshot();
+            if a != b {
+                let diff: Vec<String> = a
+                    .iter()
+                    .filter(|(k, v)| b.get(*k) != Some(v))
+                    .map(|(k, _)| k.clone())
+                    .chain(b.keys().filter(|k| !a.contains_key(*k)).cloned())
+                    .take(4)
+                    .collect();
+                return Err(VMismatch {
+                    sig: format!("refused-call-had-effect|{}", op.kind()),
+                    what: format!("{:?} returned an error but changed {:?}", op, diff),
+                });
+            }
+        }
         self.classify_write(op, pre);
         self.last_op_committed = matches!(op, VOp::Commit(_) | VOp::Rollback | VOp::RollbackBefore(_) | VOp::Reimport);
         self.compare(op.kind())
@@ -1025,7 +1067,7 @@ impl<V: VecLike> VecExec<V> {
             if stored > real {
                 self.stats.bump(&format!("regime:{f}:expanded"));
             }
-            let has_holes = !self.v().v_holes().is_empty();
+            let has_holes = self.holes_region_exists();
             if has_holes && !had_holes {
                 self.stats.bump(&format!("regime:{f}:holes_region_created"));
             }
@@ -1107,6 +1149,41 @@ impl<V: VecLike> VecExec<V> {
                 what: format!("reading back after {after} panicked: {p}"),
             }),
         }
+    }
+
+    /// Everything a refused call must leave alone: every region of the database (name, start,
+    /// reserved, length, content hash), the file length, the change-directory listing (with sizes)
+    /// and the vector's own volatile view.
+    pub fn full_snapshot(&self) -> BTreeMap<String, String> {
+        let mut out = BTreeMap::new();
+        let names: Vec<String> = self.db.regions().id_to_index().keys().cloned().collect();
+        for n in names {
+            if let Some(r) = self.db.get_region(&n) {
+                let (start, reserved, len) = {
+                    let m = r.meta();
+                    (m.start(), m.reserved(), m.len())
+                };
+                let h = crate::common::fnv(r.create_reader().read_all());
+                out.insert(format!("region:{n}"), format!("{start}/{reserved}/{len}/{h:x}"));
+            }
+        }
+        out.insert("file_len".into(), format!("{}", self.db.file_len()));
+        if let Ok(rd) = std::fs::read_dir(self.v().v_changes_dir()) {
+            for e in rd.flatten() {
+                let size = e.metadata().map(|m| m.len()).unwrap_or(0);
+                out.insert(format!("change:{}", e.file_name().to_string_lossy()), format!("{size}"));
+            }
+        }
+        let v = self.v();
+        out.insert("vec".into(), format!("len={} stored={} real={} stamp={} dirty={} holes={:?} cv={}", v.v_len(), v.v_stored_len(), v.v_real_stored_len(), v.v_stamp(), v.v_is_dirty(), v.v_holes(), v.v_computed_version()));
+        out
+    }
+
+    pub fn holes_region_exists(&self) -> bool {
+        self.v()
+            .v_region_names()
+            .first()
+            .is_some_and(|n| self.db.get_region(&format!("{n}_holes")).is_some())
     }
 
     /// Names of the change files currently on disk.
@@ -1279,7 +1356,9 @@ pub fn gen_vop<T: Elem>(
         9 => VOp::Take(idx(rng)),
         10 => VOp::Fill,
         11 => {
-            if cfg.raw_ops && rng.chance(1, 2) {
+            if rng.chance(1, 4) {
+                if rng.chance(1, 2) { VOp::BadImportVersion } else { VOp::BadImportFormat }
+            } else if cfg.raw_ops && rng.chance(1, 2) {
                 VOp::BadUpdate(len + rng.below(4))
             } else {
                 let i = if rng.chance(1, 2) { len + 1 + rng.below(3) } else { len.saturating_sub(1 + rng.below(3)) };
